@@ -188,3 +188,77 @@ Proof. eexists. split; [vm_compute; reflexivity|auto]. Qed.
 Theorem aio_start_sites_guarded : forallb (fun x => snd x) AIO_START_SITES = true.
 Proof. vm_compute. reflexivity. Qed.
 Print Assumptions aio_start_sites_guarded.
+
+(* ---- the PROVIDER CONTRACT as a monitor over the observable history of one aio
+   (Core/ProvContract.v: submissions, nni_aio_start accepted/refused, completions, callbacks,
+   a_stop, return of nng_aio_stop).  The theorems above are about AioModel, whose provider is
+   well-behaved by construction; [pc_step] says what that means on observations, so that it can
+   be checked of the REAL providers (harness/wb_opkinds.c feeds the extracted monitor the
+   histories of user aios on every operation kind).  For every accepted history, of any length: *)
+From NngV Require Import Core.ProvContract Core.ProvContractLink.
+
+(* exactly once, with one result: the completions' results, in order, are the results the
+   callbacks read, in order (plus the one whose callback is owed); every submission has
+   exactly one completion (except the one still with the provider) *)
+Theorem provider_contract_exactly_once : forall evs m, pc_run pc_init evs = Some m ->
+  completions evs = callbacks evs ++ owed_callback (pc_phase m) /\
+  submits evs = length (completions evs) + owed_completion (pc_phase m) /\
+  length (callbacks evs) = cbdones evs + pc_running m.
+Proof. exact pc_accepted_exactly_once. Qed.
+Print Assumptions provider_contract_exactly_once.
+
+Theorem provider_contract_terminated : forall evs m, pc_run pc_init evs = Some m -> pc_phase m = PIdle ->
+  submits evs = length (callbacks evs) /\ completions evs = callbacks evs.
+Proof. exact pc_terminated_exactly_once. Qed.
+Print Assumptions provider_contract_terminated.
+
+(* ... at every moment of the history (accepted histories are prefix closed) *)
+Theorem provider_contract_never_more : forall a b m, pc_run pc_init (a ++ b) = Some m ->
+  length (callbacks a) <= length (completions a) <= submits a.
+Proof. exact pc_never_more. Qed.
+Print Assumptions provider_contract_never_more.
+
+(* once nng_aio_stop has returned: nothing owed, nothing running; once a_stop is latched
+   no operation is accepted any more *)
+Theorem provider_contract_stop_returned : forall a b m, pc_run pc_init (a ++ EStopReturned :: b) = Some m ->
+  submits a = length (callbacks a) /\ completions a = callbacks a /\ length (callbacks a) = cbdones a.
+Proof. exact pc_stop_returned_quiescent. Qed.
+Print Assumptions provider_contract_stop_returned.
+Theorem provider_contract_no_start_after_stop : forall a b m,
+  pc_run pc_init (a ++ EFwStop :: b) = Some m -> ~ In EStartOk b.
+Proof. exact pc_no_start_after_stop. Qed.
+Print Assumptions provider_contract_no_start_after_stop.
+
+(* the link: the monitor is the model's interface, not a second specification.  For the source
+   as it is now (form of nni_aio_abort read from aio.c) EVERY run of AioModel, under every
+   interleaving, projects (ProvContractLink.ev_of_step: what the caller and the trace see of each
+   critical section) to a history the monitor accepts, ending in the monitor state that
+   corresponds to the model state; and the monitor's counts are the model's ghost counters *)
+Theorem aio_model_histories_accepted : forall fixed ls s,
+  arun fixed C02_ABORT_DONE_FIXED aio_init ls = Some s ->
+  exists m, pc_run pc_init (history fixed C02_ABORT_DONE_FIXED aio_init ls) = Some m /\ Rel s m.
+Proof. exact model_histories_accepted. Qed.
+Print Assumptions aio_model_histories_accepted.
+Theorem aio_model_history_counts : forall fixed fdone ls s, arun fixed fdone aio_init ls = Some s ->
+  g_subs s = submits (history fixed fdone aio_init ls) /\
+  g_cbs s = length (callbacks (history fixed fdone aio_init ls)).
+Proof. intros fixed fdone ls s H. exact (history_counts fixed fdone ls aio_init s H). Qed.
+Print Assumptions aio_model_history_counts.
+
+(* the pinned nni_aio_abort (before fix e9a11c8) is refused by the monitor: the late-abort run
+   makes the callback read a result other than the completion's *)
+Theorem provider_contract_refuses_late_abort :
+  pc_run pc_init (history true false aio_init late_abort_run) = None.
+Proof. vm_compute. reflexivity. Qed.
+Print Assumptions provider_contract_refuses_late_abort.
+
+(* the two breaches the seeded changes C02/4 and C02/5 are instances of: a completion after a
+   refused nni_aio_start is refused; an accepted operation that is never completed is accepted
+   as a history (it breaches nothing yet) but owes a completion for ever - liveness, which the
+   harness checks as "lost completion" *)
+Example provider_contract_refuses_finish_after_refused_start :
+  pc_run pc_init [EFwStop; EStopReturned; ESubmit; EStartRefused NNG_ESTOPPED; EFinish NNG_ESTOPPED] = None.
+Proof. reflexivity. Qed.
+Example provider_contract_owed_completion :
+  exists m, pc_run pc_init [ESubmit; EStartOk] = Some m /\ owed_completion (pc_phase m) = 1.
+Proof. eexists. split; reflexivity. Qed.
